@@ -2,6 +2,7 @@
 import TF.Drv.Proto
 import TF.Model.BField
 import TF.Model.XField
+import TF.Model.XFieldInv
 import TF.Spec.Field
 /-! driver handlers for the families `bfe` and `xfe` (C01) -/
 namespace TF.Drv.BField
@@ -49,9 +50,12 @@ def bfe : Handler
   | "eq", [.nat a, .nat b] => some ("ok:" ++ fmtBool (bfe_value a == bfe_value b))
   | _, _ => none
 
-def toVal (x : XF.X3) : Spec.X3 := (bfe_value x.1, bfe_value x.2.1, bfe_value x.2.2)
-def ofVal (x : Spec.X3) : XF.X3 := (bfe_new x.1, bfe_new x.2.1, bfe_new x.2.2)
+def toVal (x : XF.X3) : Spec.X3 := XF.toVal x
+def ofVal (x : Spec.X3) : XF.X3 := XF.ofVal x
 def okX (x : XF.X3) : String := "ok:" ++ fmtTriple x
+def okOptX : Option XF.X3 → String
+  | some x => okX x
+  | none => "panic"
 
 def xfe : Handler
   | "add", [x, y] => do let a ← x.triple?; let b ← y.triple?; pure (okX (XF.add a b))
@@ -67,21 +71,16 @@ def xfe : Handler
       let a ← x.triple?
       pure (match XF.unlift a with | some v => s!"ok:some:{v}" | none => "ok:none")
   | "pow", [x, .nat e] => do let a ← x.triple?; pure (okX (XF.modPow a e))
-  | "inv", [x] => do
-      let a ← x.triple?
-      pure (if a == XF.zero then "panic" else okX (ofVal (Spec.xinv (toVal a))))
-  | "inv0", [x] => do
-      let a ← x.triple?
-      pure (if a == XF.zero then okX XF.zero else okX (ofVal (Spec.xinv (toVal a))))
-  | "div", [x, y] => do
-      let a ← x.triple?; let b ← y.triple?
-      pure (if b == XF.zero then "panic" else okX (XF.mul a (ofVal (Spec.xinv (toVal b)))))
+  -- `inverse` / `inverse_or_zero` / `Div`: the extended-gcd route of the Rust code (TF/Model/XFieldInv.lean); the
+  -- protocol carries raw Montgomery words, the model runs on canonical values (`bfe_value` in, `bfe_new` out)
+  | "inv", [x] => do let a ← x.triple?; pure (okOptX (XF.inverse a))
+  | "inv0", [x] => do let a ← x.triple?; pure (okOptX (XF.inverseOrZero a))
+  | "div", [x, y] => do let a ← x.triple?; let b ← y.triple?; pure (okOptX (XF.div a b))
   | "frompoly", [cs] => do
-      -- coefficients given as canonical values, lowest degree first; Horner modulo X^3 - X + 1
+      -- coefficients given as canonical values, lowest degree first; `From<Polynomial> for XFieldElement`:
+      -- remainder of the long division by X^3 - X + 1, zero padded
       let l ← cs.natList?
-      let xx : Spec.X3 := (0, 1, 0)
-      let r := l.reverse.foldl (fun acc c => Spec.xadd (Spec.xmul acc xx) (Spec.xlift (c % P))) Spec.xzero
-      pure (okX (ofVal r))
+      pure (okOptX ((XFInv.ofPolyG bfieldOps (l.map (· % P))).map ofVal))
   | _, _ => none
 
 end TF.Drv.BField
